@@ -50,6 +50,12 @@ func selfSigned() tls.Certificate {
 func (r *e2eRig) startCDN(n int) {
 	l := r.net.Listen("cdn:443", false)
 	cfg := &tls.Config{Certificates: []tls.Certificate{selfSigned()}}
+	cfg.GetConfigForClient = func(chi *tls.ClientHelloInfo) (*tls.Config, error) {
+		redirAddrsM.Lock()
+		r.cdnSNI = append(r.cdnSNI, chi.ServerName) // what the CDN edge sees in clear
+		redirAddrsM.Unlock()
+		return nil, nil
+	}
 	go func() {
 		for i := 0; i < n; i++ {
 			c, err := l.Accept()
@@ -194,6 +200,15 @@ func hsAgree(cs hsCase) string {
 	key, err := tr.Handshake(conn, auth)
 	if err != nil {
 		return fmt.Sprintf("client handshake failed: %v", err)
+	}
+	if cs.Transport == "cdn" && !strings.EqualFold(cs.ServerName, "random") {
+		// the name presented to the CDN edge in clear is the configured ServerName (domain fronting), not the origin
+		redirAddrsM.Lock()
+		sni := append([]string{}, r.cdnSNI...)
+		redirAddrsM.Unlock()
+		if len(sni) == 0 || sni[len(sni)-1] != cs.ServerName {
+			return fmt.Sprintf("the TLS connection to the CDN carried the server name %q, configured ServerName is %q", sni, cs.ServerName)
+		}
 	}
 	// server side: the session exists under this UID and session id, with the same key and mode
 	var sesh *mux.Session
